@@ -939,6 +939,50 @@ def _same_datum(it, a, b):
 R.spec_funcs["form_can_carry"] = _form_can_carry
 R.spec_funcs["same_datum"] = _same_datum
 
+
+# ------------------------------------------------------------------------------------------------- generation filters: only data that CAN be put on the wire unambiguously is generated
+FLT = "schemathesis.openapi.generation.filters:"
+VAL6 = "schemathesis.core.validation:"
+for _name, _args in (("is_latin_1_encodable", {"value": Opq("Any")}), ("has_invalid_characters", {"name": Opq("Any"), "value": Opq("Any")}), ("contains_unicode_surrogate_pair", {"item": Opq("Any")})):
+    if VAL6 + _name not in R.contracts:
+        R.contract(VAL6 + _name, args=_args, returns=Bool, pure=True, trusted=True, note="character-level validity of a header / text value (codecs, requests: E4 / E5)")
+R.alias("latin1_ok", VAL6 + "is_latin_1_encodable")
+R.alias("bad_header_chars", VAL6 + "has_invalid_characters")
+R.alias("has_surrogates", VAL6 + "contains_unicode_surrogate_pair")
+R.contract(
+    FLT + "is_valid_header",
+    prop="C06",
+    args={"headers": KeyedDict(Str, Str, sizes=(0, 1, 2))},
+    raises=[],
+    ensures={"valid_iff_every_header_can_be_sent": "iff(result, all(latin1_ok(headers[k]) and not bad_header_chars(k, headers[k]) for k in headers))"},
+    bounded_note="up to 2 headers",
+    replayable=False,
+)
+R.contract(
+    FLT + "is_valid_query",
+    prop="C06",
+    args={"query": KeyedDict(Str, Str, sizes=(0, 1, 2))},
+    raises=[],
+    ensures={"valid_iff_no_name_or_value_holds_a_lone_surrogate": "iff(result, all(not has_surrogates(k) and not has_surrogates(query[k]) for k in query))"},
+    bounded_note="up to 2 parameters",
+    replayable=False,
+)
+R.contract(
+    FLT + "is_valid_path",
+    prop="C06",
+    args={"parameters": KeyedDict(Str, OneOf(Str, Int), sizes=(0, 1, 2))},
+    raises=[],
+    ensures={
+        # a path value must fill exactly its own segment of the template: not empty, no "/" (it would add a segment), no template braces, encodable
+        "valid_iff_every_value_fills_exactly_its_own_segment": "iff(result, all(not has_surrogates(parameters[k]) and "
+                                                               "(not is_instance(parameters[k], 'str') or (length(parameters[k]) > 0 and not contains_text(parameters[k], '/') and "
+                                                               "not contains_text(parameters[k], '{') and not contains_text(parameters[k], '}'))) for k in parameters))",
+    },
+    bounded_note="up to 2 path parameters (text or integer)",
+    replayable=False,
+)
+R.spec_funcs["contains_text"] = lambda it, s, sub: it.contains(s, sub)
+
 LEVEL_TEXT = ("Deductive: each style encoder against the wire form of the OpenAPI serialization table, serialize_case's query/cookie/method/url pass-through; "
               "arrays/objects explored up to a small size (labelled bounded). URL composition and the requests library are trusted. Level other.")
 LEVEL_NOTE = "Trusted: requests (E4), str.join/split inversion and urllib (E5), pyvc semantics (E9)."
